@@ -12,7 +12,12 @@ EOLS = st.sampled_from([b'\r\n', b'\r\n', b'\r\n', b'\n', b'\r', b''])
 WORDS = [b'hello', b'world', b'foo', b'bar', b'Re:', b're: ', b'x', b'=?utf-8?q?h=C3=A9?=',
          b'=?utf-8?b?aGk=?=', b'=?bogus?x?zz?=', b'"quoted"', b'(comment)',
          b'<a@b.c>', b'a@b', b'A B <c@d.e>', b'grp: a@b, c@d;', b'\xc3\xa9',
-         b'\xff\xfe', b'\x00', b'\\', b'"', b';', b',', b':', b'  ', b'\t']
+         b'\xff\xfe', b'\x00', b'\\', b'"', b';', b',', b':', b'  ', b'\t',
+         # encoded words that decode to control characters: a trailing LF,
+         # CR, CRLF, NUL, an embedded LF, a quote and a backslash
+         b'=?utf-8?b?V2Vla2x5IHJlcG9ydAo=?=', b'=?utf-8?b?eA0=?=',
+         b'=?utf-8?b?eA0K?=', b'=?utf-8?q?x=00?=', b'=?utf-8?q?a=0Ab?=',
+         b'=?utf-8?q?=22=5C?=', b'=?us-ascii?q?=0A?=']
 
 
 def text_bytes(max_size: int = 30) -> Any:
@@ -44,10 +49,13 @@ CTYPES = [b'text/plain', b'text/plain; charset=utf-8', b'text/html; charset="x"'
           b'application/octet-stream; name="a.bin"', b'text', b'/', b'x/y/z',
           b'text/plain; charset', b'text/plain; =x', b'text/plain; a*0=x; a*1=y',
           b"text/plain; name*=utf-8''%e2%82%ac", b'TEXT/PLAIN; CHARSET=US-ASCII',
+          b"text/plain; name*=us-ascii''notes.txt%0A",
+          b"text/plain; name*=us-ascii''a%0D%0Ab%00",
           b'text/plain;;;', b'multipart/mixed; boundary=', b'\xff/\xfe', b'']
 CTES = [b'7bit', b'8bit', b'binary', b'base64', b'quoted-printable', b'BASE64',
         b'x-unknown', b'', b'base64 ', b'7bit; x', b'uuencode']
 DISPS = [b'inline', b'attachment; filename="a.txt"', b'attachment; filename*0=a; filename*1=b',
+         b"attachment; filename*=us-ascii''x%0A",
          b'', b';', b'attachment; filename=\xff', b'form-data; name="x"']
 HEADER_NAMES = [b'Subject', b'From', b'To', b'Cc', b'Bcc', b'Sender',
                 b'Reply-To', b'Date', b'Message-Id', b'In-Reply-To',
